@@ -479,6 +479,12 @@ def typeof(v):
 
 def unwrap(v, t):
     """V -> z3 expression of sort t.sort() (with coercions int->float, x->Optional[x])."""
+    if getattr(t, "coerce_in", None) is not None:
+        # dynamically typed target (Json): python values are injected
+        r = t.coerce_in(v)
+        if r is not None:
+            return r
+        raise TypeError("cannot encode %s as %s" % (type(v).__name__, t))
     if isinstance(t, TOpt):
         if isinstance(v, VNone):
             return t.none()
